@@ -135,6 +135,9 @@ func astLit(e ast.Expr) *olit {
 		}
 		switch in := v.Expr.(type) {
 		case *ast.IntegerLiteral:
+			if in.Value < 0 {
+				return nil // the operand is itself a folded "-9223372036854775808": two signs, not one literal
+			}
 			if v.Op == "-" {
 				return &olit{Kind: "int", I: -in.Value}
 			}
@@ -655,7 +658,7 @@ var directed = []string{
 	"true.x", "my.true", "MY.x", "target.false", "truex", "true1", "true_", "true false", "-true", "+false", "!true", "true;", "1;", "1]", "-5", "+5", "- 5", "+ 5", "-  5  ", "--5", "-+5", "+-5", "-(5)", "(5)", "5 5", "5a", "5e", "5e5", "5E+5", "-5e-5", "5.5.5",
 	".5", "-.5", "+.5", ". 5", ".", "-", "+", "", " ", "\"", "\"\"", "\"\\\"", "\"\\\\\"", "\"\\\"\"", `"\t\n\r\b\f\'"`, `"\a"`, `"\S"`, `"\0"`, `"\00"`, `"\000"`, `"\001"`, `"\1"`, `"\18"`, `"\101"`, `"\377"`, `"\400"`, `"\477"`, `"\777"`, `"\9"`, `"\08"`,
 	"\"\xff\"", "\"\xc3\xa9\"", "\"\xc3\"", "\"\xe2\x9c\x93\"", "\"\xe2\x9c\"", "\"\xf0\x9f\x99\x82\"", "\"\xed\xa0\x80\"", "\"\xc0\x80\"", "\"\xf4\x90\x80\x80\"", "\"\xef\xbf\xbd\"", "\"a\x00b\"", "\"line1\nline2\"", "\"tab\there\"",
-	"9223372036854775807", "9223372036854775808", "-9223372036854775808", "-9223372036854775809", "+9223372036854775808", "- 9223372036854775808", "18446744073709551616", "99999999999999999999", "-99999999999999999999",
+	"9223372036854775807", "9223372036854775808", "-9223372036854775808", "--9223372036854775808", "+-9223372036854775808", "- -5", "-9223372036854775809", "+9223372036854775808", "- 9223372036854775808", "18446744073709551616", "99999999999999999999", "-99999999999999999999",
 	"1e400", "1.0e400", "-1.0e400", "1.0e308", "1.8e308", "1.7976931348623157e308", "1.7976931348623159e308", "1.0e-400", "-1.0e-400", "4.9e-324", "2.0e-324", "0.0", "-0.0", "0.0e0", "-0.0e-5", "00.5", "007.5", "-007.50",
 	"1.5e005", "1.5e+005", "123456789012345678901234567890.5", "0.1234567890123456789012345678901234567890", "1.5e99999999999999999999", "1.5e-99999999999999999999",
 	"inf", "-inf", "nan", "-nan.", "infinity", "Inf.", "-Infinity", "1.5f", "1.5d", "1,5", "1.5 ", " 1.5", "\t42\n", "\v42\f", "42\r\n", "\xc2\xa042", "42\xe2\x80\xa8", "\xe1\x9a\x8042", "42\xe2\x81\x9f", "42\xe2\x80\x8b", "\xc242", "42\xc2", "42\xe2\x80",
